@@ -85,10 +85,11 @@ impl Sim {
             1 => rng.range(100, 1500),
             _ => 0,
         };
-        // the limit this connection got when it was accepted (if it is not accepted yet: the current one)
-        let lim = self.w.clients[i].limit.unwrap_or(self.w.cur_limit);
+        // the limit this connection got when it was accepted; a client that is not accepted yet cannot know which limit
+        // it will get (the application may change it before the accept), so it declares no body
+        let lim = self.w.clients[i].limit.unwrap_or(0);
         // the witness stays well-behaved: it never declares more than its limit
-        let body_len = if self.cfg.witness && i == 0 && body_len > lim { 0 } else { body_len };
+        let body_len = if (self.cfg.witness && i == 0 && body_len > lim) || self.w.clients[i].limit.is_none() { 0 } else { body_len };
         if body_len > lim {
             // it will be answered with a 400: from here on the client is not a well-behaved one
             self.plans[i].sent_garbage = true;
@@ -757,13 +758,17 @@ pub fn c09_halfclose_while_output_blocked(rec: &mut Rec, rng: &mut Rng, how: Shu
     while !sim.plans[b].outq.is_empty() {
         sim.send_next(rec, rng, b);
     }
-    for _ in 0..8 {
+    for _ in 0..12 {
         sim.poll(rec);
         if let Some(k) = sim.w.held.iter().position(|h| h.client == Some(b)) {
-            sim.respond(rec, rng, k);
+            // a small answer (this scenario is about A's blocked output, not about B's)
+            let t = sim.w.held[k].tag.clone();
+            let spec = RespSpec { v11: true, code: 200, ops: vec![BOp::Body(format!("{}:", t).into_bytes())] };
+            sim.plans[b].answered.push(t);
+            sim.w.respond(rec, k, &spec);
         }
+        sim.w.client_read(rec, b);
     }
-    sim.w.client_read(rec, b);
     let (resps, _) = split_responses(&sim.w.clients[b].received);
     if resps.iter().filter(|(c, _)| *c == 200).count() != sim.plans[b].answered.len() || sim.plans[b].answered.is_empty() {
         rec.oracle_fail("C09", "a second client was not served while the first one's connection is hung up with output blocked", &sim.w.log);
